@@ -319,12 +319,16 @@ func init() {
 			})
 		}
 		small := []int{0, 1, 4, 6, 7, 8} // 1 2 int >=2 {a:1} {b:2}
-		all := []int{0, 1, 2, 3, 4, 5, 6, 7, 8, 9, 10}
 		var enum []*c4expr
 		if c.Thorough {
-			enum = append(enum, c4enumerate(2, 2, all, false)...)
-			enum = append(enum, c4enumerate(2, 3, []int{0, 1, 4, 7}, false)...)
-			c.Set("exhaustive_subspace", "depth 2 width 2 over all 11 leaves; depth 2 width 3 over {1,2,int,{a:1}}")
+			enum = append(enum, c4enumerate(2, 2, []int{0, 1, 3, 4, 6, 7, 8, 10}, false)...)
+			d1w := c4enumerate(1, 3, []int{0, 1, 4, 7}, false)
+			for _, a := range d1w {
+				for _, b := range d1w {
+					enum = append(enum, &c4expr{op: "&", args: []*c4expr{a, b}})
+				}
+			}
+			c.Set("exhaustive_subspace", "depth 2 width 2 over the leaves {1, 2, \"a\", int, >=2, {a:1}, {b:2}, {a:2}}; A & B over all depth-1 width<=3 expressions over {1, 2, int, {a:1}}")
 		} else {
 			enum = c4enumerate(2, 2, small, false)
 			c.Set("exhaustive_subspace", "depth 2 width 2 over the leaves {1, 2, int, >=2, {a:1}, {b:2}}")
@@ -349,6 +353,16 @@ func init() {
 		}
 		c.Set("conjunction_family", fmt.Sprintf("A & B over the %d depth-1 expressions of width <= 3 over {1, 2, int}", len(d1)))
 		c.Set("enumerated_expressions", len(enum))
+		// pinned witnesses of the recorded findings (known_findings.jsonl): every run reproduces them
+		lv := func(i int) *c4expr { return &c4expr{op: "leaf", c4leaf: c4leafSrcs[i].l, src: c4leafSrcs[i].src} }
+		or := func(marks []bool, args ...*c4expr) *c4expr { return &c4expr{op: "|", args: args, marks: marks} }
+		and := func(a, b *c4expr) *c4expr { return &c4expr{op: "&", args: []*c4expr{a, b}} }
+		ff, tf := []bool{false, false}, []bool{true, false}
+		run([]*c4expr{
+			or(ff, or(tf, lv(0), lv(0)), lv(1)),                          // ((*1 | 1) | 2)
+			and(or(ff, or(tf, lv(7), lv(2)), lv(8)), lv(7)),              // ((*{a: 1} | 3) | {b: 2}) & {a: 1}
+			and(or(tf, and(lv(7), lv(5)), or(ff, lv(0), lv(4))), or(tf, or(ff, lv(1), lv(4)), lv(3))), // (*({a: 1} & string) | (1 | int)) & (*(2 | int) | "a")
+		}, false)
 		run(enum, true)
 		if len(enum) > 0 {
 			c.Sample(map[string]any{"enumerated": enum[len(enum)/2].String()})
